@@ -181,7 +181,7 @@ type OpGen struct {
 }
 
 var allMutators = []string{"creat", "write", "mkdir", "mkdirall", "remove", "removeall", "rename", "symlink", "chmod", "chown", "lchown", "chtimes"}
-var readOnlyOps = []string{"stat", "lstat", "readlink", "read"}
+var readOnlyOps = []string{"stat", "lstat", "readlink", "read", "fstat"}
 
 // pickPath chooses a path: mostly an existing entry, sometimes a new child of one, sometimes deeper.
 func pickPath(r *RNG, existing []string) string {
@@ -238,6 +238,10 @@ func (g *OpGen) Gen(r *RNG, existing []string) Op {
 		target = g.Focus
 	}
 	p := spell(r, g, target)
+	if (k == "stat" || k == "lstat" || k == "read" || k == "fstat") && r.Chance(1, 8) {
+		// the root of the filesystem itself, in several spellings (names reported for it: C14)
+		p = r.Pick([]string{"/", "/.", "//", "/./", "/x/.."})
+	}
 	switch k {
 	case "creat":
 		if g.ReadBack && r.Chance(1, 3) {
